@@ -17,7 +17,7 @@ RULE = ("programs whose behaviour depends on state that could leak between execu
         "mutated per run, generic specialisations created lazily, arrays sized by final int constants, "
         "objects that own qubits (index free list), measured flags left set, tracked counts, allocation "
         "that depends on measured bits; built from the quantum generator (profiles qasm/handles/tracked/"
-        "measure) plus a classical epilogue; a deterministic classical family (name-shadowing generics: class names reused as type-parameter names with 'new' inside generic code; the C08 class-hierarchy generator; the C07 classical generator) where every shot must print what one fresh run prints; N in {2, 5} quick, {2, 8, 32} thorough. Distinct = distinct "
+        "measure) plus a classical epilogue; a deterministic classical family (name-shadowing generics: class names reused as type-parameter names with 'new' inside generic code; the C08 class-hierarchy generator; the C07 classical generator) where every shot must print what one fresh run prints; N in {2, 5} quick, {2, 8, 32} thorough, with --echo=all; a third of the programs also with the default echo policy (suppressed for N >= 2) compared, echo lines aside, with fresh printing runs. Distinct = distinct "
         "(program, N); non-trivial = the program allocates at least one object or qubit.")
 ASSUMPTIONS = ["per-execution reseeding through the guarded exec_begin hook makes shot k of a multi-shot run and a "
                "fresh process with EXEC_BASE=k consume identical draws",
@@ -214,7 +214,11 @@ def check_case(ctx, binary, evalmon, case):
     N = case["n"]
     seed = (ctx.seed * 15485863 + case["index"]) & 0x7fffffff
     env = {"BLOCH_VERIF_SEED": str(seed), "BLOCH_VERIF_GC": "none"}
-    ra, eva, qa, _ = core.run_bloch(binary, src, args=["--shots=%d" % N, "--echo=all"], env=env, trace=True, timeout=300)
+    # echo policy of the multi-shot run: 'all', or the default (echo suppressed for N >= 2), in which case
+    # everything except the echo lines must still equal a fresh run that does print
+    quiet = case.get("echo") == "default"
+    margs = ["--shots=%d" % N] + ([] if quiet else ["--echo=all"])
+    ra, eva, qa, _ = core.run_bloch(binary, src, args=margs, env=env, trace=True, timeout=300)
     ca = ra.classify()
     files = {"prog.bloch": src, "multi.stdout": ra.stdout[-6000:], "multi.stderr": ra.stderr[-2000:]}
     if ca[0] not in ("ok", "diag"):
@@ -240,6 +244,10 @@ def check_case(ctx, binary, evalmon, case):
             ctx.violation("shot:count", "multi-shot run has no execution %d" % k, case, files)
             return
         a, b = digest(runs[k]), digest(qlang.split_executions(evb)[0] if evb else [])
+        if quiet:
+            a = [x for x in a if x[0] != "echo"]
+            b = [x for x in b if x[0] != "echo"]
+            ctx.count("shot_comparisons_with_echo_suppressed")
         ctx.count("shot_comparisons")
         if a != b:
             i = next((j for j, (x, y) in enumerate(zip(a, b)) if x != y), min(len(a), len(b)))
@@ -260,7 +268,7 @@ def check_case(ctx, binary, evalmon, case):
         ctx.violation("shot:qasm", "QASM of the last shot differs from the fresh run's", case,
                       dict(files, **{"multi.qasm": qa or "", "fresh.qasm": singles[-1][2] or ""}))
     # in-process re-execution on one Program, analysed once and twice
-    if evalmon and ca[0] == "ok":
+    if evalmon and ca[0] == "ok" and not quiet:
         d = core.scratch_dir("re")
         import os
         p = os.path.join(d, "p.bloch")
@@ -306,6 +314,8 @@ def run(ctx):
         for n in ((2, 5) if ctx.quick() else (2, 8, 32)):
             if (i + n) % 2 == 0 or n == 2:
                 cases.append(dict(index=i, n=n))
+        if i % 3 == 0:
+            cases.append(dict(index=i, n=3, echo="default"))
     for i in range(ctx.n(90, 1500)):
         cases.append(dict(index=i, n=3 if ctx.quick() else (3, 9)[i % 2], family="classical"))
     core.pmap(lambda c: check_case(ctx, binary, evalmon, c), cases)
